@@ -157,6 +157,16 @@ fn bases(out_path: &str) {
     sp2.name = Some("short".to_string());
     sp2.footstep_sound = Some("step".to_string());
     ab.specs.push(sp2);
+    // a third record whose last cells are the three f32 sizes (every field type ends a record somewhere)
+    let mut sp3 = AssetSpec::new();
+    sp3.name = Some("sized".to_string());
+    sp3.use_model_size = true;
+    sp3.model_size = 1.5;
+    sp3.use_head_size = true;
+    sp3.head_size = -0.25;
+    sp3.use_pupil_y = true;
+    sp3.pupil_y = 3.0;
+    ab.specs.push(sp3);
     put("asset-small", "bin_le", ab.serialize().unwrap());
     // text archives
     for (nm, f, e, fam) in [
